@@ -19,6 +19,7 @@ package comdoc
 import (
 	"bytes"
 	"encoding/binary"
+	"errors"
 )
 
 // Read the master/meta sector allocation table. It is an array of all the
@@ -33,6 +34,11 @@ func (r *ComDoc) readMSAT() error {
 	count := r.SectorSize / 4
 	values := make([]SecID, count)
 	for nextSector >= 0 {
+		// every link in the chain is a distinct sector, so a chain longer than
+		// the file has sectors must be looping
+		if len(r.msatList) >= r.sectorCount {
+			return errors.New("MSAT sector chain is longer than the file")
+		}
 		if err := r.readSectorStruct(nextSector, values); err != nil {
 			return err
 		}
